@@ -561,8 +561,12 @@ def evaluate__max_min_functions(self: XPathFunction, context: ta.ContextType = N
     else:
         collation = self.get_argument(context, 1, required=True, cls=str)
 
-    with CollationManager(collation, self):
+    with CollationManager(collation, self) as manager:
         try:
+            if values and all(isinstance(x, str) for x in values):
+                # strings and URIs are ordered by the collation
+                result = aggregate_func(cast(list[str], values), key=manager.strxfrm)
+                return AnyURI(result) if to_any_uri else result
             return max_or_min()
         except TypeError as err:
             if isinstance(context, XPathSchemaContext):
@@ -624,11 +628,13 @@ def select__distinct_values(self: XPathFunction, context: ta.ContextType = None)
                     yield value
                     results.append(value)
 
-            elif isinstance(value, UntypedAtomic):
-                # untyped values are compared as strings (never cast to the type of another item)
-                if not any(is_comparable(value.value, x) and value.value == x for x in results):
+            elif isinstance(value, (str, AnyURI, UntypedAtomic)):
+                # strings, URIs and untyped values (never cast to the type of another item) are
+                # compared as strings by the collation
+                key = manager.strxfrm(str(value))
+                if key not in string_keys:
+                    string_keys.add(key)
                     yield value
-                    results.append(value.value)
 
             elif isinstance(value, AbstractDateTime):
                 # values without timezone are compared using the implicit timezone
@@ -647,7 +653,8 @@ def select__distinct_values(self: XPathFunction, context: ta.ContextType = None)
     else:
         collation = self.get_argument(self.context or context, 1, required=True, cls=str)
 
-    with CollationManager(collation, self):
+    string_keys: set[str] = set()
+    with CollationManager(collation, self) as manager:
         yield from distinct_values()
 
 
